@@ -596,7 +596,7 @@ def sym_finalizer(vc):
             c = calls(evs, target='callback')
             if len(c) == 1:
                 if with_stats:
-                    check(it, 'stats-passed-to-a-callback-that-declares-it', c[0].kwargs == {} and True)
+                    check(it, 'stats-passed-to-a-callback-that-declares-it', set(c[0].kwargs) == {'stats'} and len(c[0].args) == 0)
                 else:
                     check(it, 'no-argument-for-a-plain-callback', len(c[0].args) == 0)
             cover(it, 'reachable[stats=%s]' % with_stats)
